@@ -312,6 +312,25 @@ pub fn bnd_c18() {
             if let Ok((a, b)) = r { if a != b { rep.found(&input, "a style attribute changed the output although document CSS is not enabled"); } }
         }
     }}
+    // the same rule given as a document style sheet (in the head, at the start and in the middle of the body), with document CSS enabled
+    for place in 0..3 { for width in [20usize, 60] {
+        let sheet = "<style>.h{display:none;}</style>";
+        let body_hidden = "<p>keep1</p><p class=\"h\">gone</p><ul><li>keep2</li><li class=\"h\">gone2</li></ul>";
+        let body_deleted = "<p>keep1</p><ul><li>keep2</li></ul>";
+        let doc = match place { 0 => format!("<html><head>{}</head><body>{}</body></html>", sheet, body_hidden), 1 => format!("<html><body>{}{}</body></html>", sheet, body_hidden), _ => format!("<html><body><p>keep0</p>{}{}</body></html>", sheet, body_hidden) };
+        let del = if place == 2 { format!("<html><body><p>keep0</p>{}</body></html>", body_deleted) } else { format!("<html><body>{}</body></html>", body_deleted) };
+        let input = format!("width={} use_doc_css=true html={}", width, doc);
+        rep.case(&input);
+        let (d1, d2) = (doc.clone(), del.clone());
+        let r = panic::catch_unwind(move || (config::plain().use_doc_css().string_from_read(d1.as_bytes(), width).ok(), config::plain().string_from_read(d2.as_bytes(), width).ok()));
+        match r { Err(_) => rep.found(&input, "panic"), Ok((a, b)) => if a != b { rep.found(&input, &format!("document style sheet not applied like the deletion {:?}: {:?} vs {:?}", del, a, b)); } }
+        // and without document CSS the sheet has no effect
+        let input2 = format!("width={} use_doc_css=false html={}", width, doc);
+        rep.case(&input2);
+        let (d3, d4) = (doc.clone(), doc.replace(sheet, ""));
+        let r = panic::catch_unwind(move || (config::plain().string_from_read(d3.as_bytes(), width).ok(), config::plain().string_from_read(d4.as_bytes(), width).ok()));
+        if let Ok((a, b)) = r { if a != b { rep.found(&input2, "a style element changed the output although document CSS is not enabled"); } }
+    }}
     // hidden by structural selectors (combinators, nth-child) instead of a class on the element itself
     let structural: [(&str, &str, &str); 7] = [
         (".o > .m .t{display:none;}", "<div class=\"o\"><div class=\"m\">a <div class=\"m\">b <span class=\"t\">T</span> c</div> d</div></div>", "<div class=\"o\"><div class=\"m\">a <div class=\"m\">b  c</div> d</div></div>"),
@@ -351,7 +370,7 @@ pub fn bnd_c09() {
     let inner = [("<ul><li>", "</li></ul>"), ("<h2>", "</h2>"), ("<blockquote>", "</blockquote>"), ("<table><tr><td>", "</td></tr></table>"), ("<ol><li>", "</li></ol>"), ("<p>", "</p>"), ("<div>", "</div>")];
     let inl = ["em", "strong", "code", "s", "a"];
     let mut rep = Report::new("bnd_c09", "outer block (li, blockquote, div, td, ol li, dd) x one or two nested annotating inline elements (em, strong, code, s, a) x inner block \
-        (ul li, h2, blockquote, td, ol li, p, div) with unique tokens before, inside and after the inner block; widths 4/8/13/20/80; rich decorator: every token carries exactly the annotations of its annotating ancestors, outermost first; plus 4 <pre> documents with inline elements");
+        (ul li, h2, blockquote, td, ol li, p, div) with unique tokens before, inside and after the inner block; widths 4/8/13/20/80; rich decorator: every token carries exactly the annotations of its annotating ancestors, outermost first; plus 4 <pre> documents with inline elements and 3 documents with nested CSS colours across table cells, list items and quotes");
     for (oo, oc) in outer { for i1 in inl { for i2 in ["", "em", "strong", "code"] { for (io, ic) in inner {
         if i2 == i1 { continue; }
         // <outer> pre <i1> [<i2>] aa <inner> bb </inner> cc [</i2>] </i1> post </outer>
@@ -384,6 +403,30 @@ pub fn bnd_c09() {
             }
         }
     }}}}
+    // CSS colours nest like elements do, across table cells, list items and quotes
+    {
+        use html2text::render::RichAnnotation as RA;
+        let red = || RA::Colour(html2text::Colour { r: 255, g: 0, b: 0 });
+        let green = || RA::Colour(html2text::Colour { r: 0, g: 255, b: 0 });
+        let css = ".r{color:#ff0000;} .g{color:#00ff00;}";
+        let docs: Vec<(&str, Vec<(&str, Vec<RA>)>)> = vec![
+            ("<div class=\"r\">aa <table><tr><td class=\"g\">bb</td><td>cc</td></tr><tr><td>dd</td><td class=\"g\">ee</td></tr></table> ff</div>",
+             vec![("aa", vec![red()]), ("bb", vec![red(), green()]), ("cc", vec![red()]), ("dd", vec![red()]), ("ee", vec![red(), green()]), ("ff", vec![red()])]),
+            ("<ul class=\"r\"><li class=\"g\">aa</li><li>bb <span class=\"g\">cc</span> dd</li></ul><p>ee</p>",
+             vec![("aa", vec![red(), green()]), ("bb", vec![red()]), ("cc", vec![red(), green()]), ("dd", vec![red()]), ("ee", vec![])]),
+            ("<blockquote class=\"g\">aa <p class=\"r\">bb</p> cc</blockquote><p>dd</p>",
+             vec![("aa", vec![green()]), ("bb", vec![green(), red()]), ("cc", vec![green()]), ("dd", vec![])]),
+        ];
+        for (html, toks) in docs { for width in [10usize, 30, 80] {
+            let input = format!("width={} css={} html={}", width, css, html);
+            rep.case(&input);
+            let h = html.to_string();
+            let lines = match panic::catch_unwind(move || config::rich().add_css(css).unwrap().lines_from_read(h.as_bytes(), width)) { Ok(Ok(l)) => l, Ok(Err(_)) => continue, Err(_) => { rep.found(&input, "panic"); continue; } };
+            for (tok, want) in &toks { for l in &lines { for ts in l.tagged_strings() { if ts.s.contains(tok) {
+                if ts.tag != *want { rep.found(&input, &format!("token {:?} carries {:?}, expected {:?}", tok, ts.tag, want)); }
+            }}}}
+        }}
+    }
     // inline elements inside <pre> (the Preformat annotation itself is filtered out before comparing)
     let pres: [(&str, Vec<(&str, Vec<RichAnnotation>)>); 4] = [
         ("<pre><code>aa bb</code></pre>", vec![("aa", vec![RichAnnotation::Code])]),
@@ -478,7 +521,8 @@ pub fn bnd_tables() {
     let mut rep = Report::new("bnd_tables", &format!("{} seeded regular tables (1..3 rows plus filler rows, 1..3 columns, colspan 2 tiling the grid, cells empty/short/two words/long/wide characters/two lines/many words, \
         one level of nested tables, columns may be empty in every row unless an empty multi-column cell spans them), widths 1..={}; plain decorator with borders: \
         no panic; lines within the width (C02); the non-space characters of all cells are exactly the non-border characters of the output (C03, C06); \
-        side-by-side layout: equal line widths, first and last line are rules, every rule character matches the bars directly above and below it (C05)", ntab, maxw));
+        side-by-side layout: equal line widths, first and last line are rules, every rule character matches the bars directly above and below it (C05); \
+        allowing width overflow does not change a rendering that succeeds (C11)", ntab, maxw));
     let mut r = Lcg(0x9e3779b97f4a7c15 ^ seed());
     for _ in 0..ntab {
         let mut tok = 0;
@@ -495,6 +539,14 @@ pub fn bnd_tables() {
             let mut got: Vec<char> = out.chars().filter(|c| !c.is_whitespace() && !is_rule(*c) && *c != '\u{2502}' && *c != '/').collect();
             got.sort();
             if got != want { rep.found(&input, &format!("cell characters {:?} but output characters {:?}; output {:?}", want.iter().collect::<String>(), got.iter().collect::<String>(), out)); continue; }
+            {
+                let h2 = html.clone();
+                match panic::catch_unwind(move || config::plain().allow_width_overflow().string_from_read(h2.as_bytes(), w)) {
+                    Err(_) => { rep.found(&input, "panic (allow_width_overflow)"); continue; }
+                    Ok(Err(e)) => { rep.found(&input, &format!("error {:?} although width overflow is allowed", e)); continue; }
+                    Ok(Ok(o)) => if o != out { rep.found(&input, &format!("allow_width_overflow changed a rendering that succeeds: {:?} vs {:?}", out, o)); continue; },
+                }
+            }
             if out.contains('/') || lines.is_empty() { continue; }     // stacked layout
             // string output trims trailing spaces: no line may be wider than the first rule; shorter lines are padded for the column checks
             let tw = cols[0].len();
@@ -578,9 +630,10 @@ pub fn bnd_c14() {
         ("<div>ta <ul id=\"u\"><li>tb</li></ul></div><blockquote>tc td <ol id=\"o\"><li>te</li></ol></blockquote>", vec![("u", "tb"), ("o", "1te")]),
         ("<div>ta <span id=\"s\"><br>tb</span> tc</div><p>td <b id=\"b\">te</b></p>", vec![("s", "tb"), ("b", "te")]),
         ("<p>ta</p> tb <h2 id=\"h\">tc</h2> td <div id=\"d\"><p>te</p></div>", vec![("h", "tc"), ("d", "te")]),
+        ("<p>ta <a name=\"n1\">tb</a> tc <a name=\"n2\" href=\"u\">td</a> te <a href=\"u\" name=\"n3\">tf</a> tg <a href=\"u\" id=\"n4\">th</a></p>", vec![("n1", "tb"), ("n2", "td"), ("n3", "tf"), ("n4", "th")]),
     ];
     let widths: Vec<usize> = if thorough() { (3..=40).collect() } else { vec![3, 4, 6, 10, 16, 40] };
-    let mut rep = Report::new("bnd_c14", &format!("13 documents with id attributes on p, div, li, span, h2, blockquote, a, em, b, ul, ol, table, tr, td, dt, dd, pre (elements next to tables, borders and loose inline text included); {} widths; \
+    let mut rep = Report::new("bnd_c14", &format!("14 documents with id attributes on p, div, li, span, h2, blockquote, a, em, b, ul, ol, table, tr, td, dt, dd, pre and name attributes on links (elements next to tables, borders and loose inline text included); {} widths; \
         rich lines: every id yields exactly one FragmentStart, and the first text after it (reading order) starts with the first text of that element", widths.len()));
     for (html, ids) in &docs { for &w in &widths {
         let input = format!("width={} html={}", w, html);
